@@ -2,6 +2,7 @@ import IwModel.Lemmas.Txt
 import IwModel.Lemmas.TxtPtr
 import IwModel.Lemmas.TxtConv
 import IwModel.Lemmas.ReVm
+import IwModel.Lemmas.TxtItoa
 /-! # C17 — text-consuming functions are memory-safe on any input and depend only on it
 
 Property theorems only; helper lemmas live in `IwModel/Lemmas/Txt*.lean`.
@@ -90,6 +91,14 @@ theorem ftoa_safe (t8 t17 : Bytes) : ftoa t8 t17 ≠ .oob := Txt.ftoa_safe t8 t1
 /-- the function as it was before the repair of F6 does leave the buffer: 33 characters
     (`1e24` printed with `"%.8Lf"`) make the trimming loop read `buf[32]`. -/
 theorem ftoa_old_overrun : ftoaOld ("1000000000000000000000000.00000000".toList.map Char.toNat) = .oob := by decide
+
+/-- **`iwitoa` never stores outside `buf[0 .. max)`** — for every 64-bit value (indeed every integer) and
+    every `max ≥ 0`, including `max` too small for a digit, for the sign, or for the terminator, and
+    `INT64_MIN`: in the model memory (8 guard cells, the buffer, 8 guard cells) no cell outside the
+    buffer differs from the fill pattern after the call. (The model is C19's `Conv.itoa`, which mirrors
+    the digit loop with its `memmove` on overflow and the in-place reversal.) -/
+theorem itoa_safe (v : Int) (max : Nat) : Conv.oobWrites (Conv.itoa v max).2 max = [] :=
+  Conv.itoa_no_oob_writes v max
 
 /-- **`iwatoi2` reads only `len` bytes** (`len` not larger than the block): blanks, sign, the `inf`
     test and the digit loop stay inside, for every content. -/
